@@ -103,9 +103,7 @@ def fix_structure(ctx, rule='A5'):
            short(dels[0].ast) if dels else (short(pops[0]) if pops else 'no delete'))
     if dels:
         guards.check_guarded(ctx, rule, fn, dels,
-                             lambda atom, truth: truth is True and isinstance(atom, ast.Compare) and
-                             norm(atom.left) == fn.params[2] and isinstance(atom.ops[0], ast.Is) and
-                             isinstance(atom.comparators[0], ast.Constant) and atom.comparators[0].value is None,
+                             guards.none_fact(fn.params[2], True),
                              set(), 'delete-only-when-none', 'the entry is deleted only when the value is None')
     fr = ctx.fn(f'{GP}.free_des_var')
     cs = calls(fr, 'fix_des_var')
